@@ -189,6 +189,7 @@ def run(ctx):
         ctx.check(good, "RED", ev.key, "fold-step-unconditional-and-uses-identifier",
                   "the fold step of evaluate_vss must be branch-free, add every coefficient commitment and depend on "
                   "the identifier", ev.loc)
+    arithmetic_kernels(ctx)
     ep = ctx.anchor(CORE + "keys::evaluate_polynomial")
     if ep:
         reductions(ctx, ep.key, adaptors={"skip": 1, "rev": 1}, min_loops=1)
@@ -199,3 +200,73 @@ def run(ctx):
                   "RED", ep.key, "skip(1)+first",
                   "evaluate_polynomial (Horner) must cover coefficients[1..] in the loop and coefficients[0] after it",
                   ep.loc)
+
+
+def arithmetic_kernels(ctx):
+    """per-step forms, the code being its own oracle: Horner step value' = (value + c) * x, final value + c_0;
+    commitment evaluation step (pow', sum') = (x * pow, sum + phi_k * pow); together they make
+    G * f(x) == sum_k (G*a_k) x^k term by term (the identity SecretShare::verify relies on)."""
+    from .. import algebra
+    from ..algebra import Alg, Unanalysable, show
+    P = ctx.prog
+    sym, pm, pa = algebra.sym, algebra.pmul, algebra.padd
+    ep = ctx.anchor(CORE + "keys::evaluate_polynomial")
+    if ep:
+        v = FnView.get(P, ep)
+        names = {n: l for l, n in ep.var_names().items()}
+        loops = ep.loops()
+        good = False
+        det = ""
+        if "value" in names and loops:
+            lp = loops[0]
+            cx = TermCx(P, ep)
+            cx.busy.add(names["value"])
+            ds = [d for d in ep.defs().get(names["value"], []) if d[0] in ("assign", "call")]
+            item = next_item(lambda t: mentions(t, arg(2)))
+            leaves = [(lambda t: t[0] == "loopvar" and t[2] == names["value"], ("scal", "v")), (item, ("scal", "c")),
+                      (lambda t: strip_newtype_fields(t) == ("arg", 1) and t != ("arg", 1), ("scal", "x")),
+                      (lambda t: is_call(t, name="expect") and is_call(t[2][0], name="first") and t[2][0][2][0] == ("arg", 2), ("scal", "c0"))]
+            al = Alg(leaves)
+            try:
+                inl, outl = [], []
+                for d in ds:
+                    t = cx.rvalue(d[3], (ep.key, d[1], d[2])) if d[0] == "assign" else cx.call(d[2], (ep.key, d[1]))
+                    (inl if d[1] in lp["body"] else outl).append(al.val(t)[1])
+                # in the loop: v+c then v*x (two sequential updates); after: v + c0; before: 0
+                good = (sorted(map(repr, inl)) == sorted(map(repr, [pa(sym("v"), sym("c")), pm(sym("v"), sym("x"))])) and
+                        sorted(map(repr, outl)) == sorted(map(repr, [{}, pa(sym("v"), sym("c0"))])))
+                # order inside the loop: add first, then multiply
+                rpo = ep.rpo()
+                seq = sorted([(rpo.get(d[1], 0), d[2] if d[0] == "assign" else 10 ** 6, d) for d in ds if d[1] in lp["body"]])
+                if good and len(seq) == 2:
+                    t0 = cx.rvalue(seq[0][2][3], (ep.key, 0, 0)) if seq[0][2][0] == "assign" else cx.call(seq[0][2][2], (ep.key, 0))
+                    good = al.val(t0)[1] == pa(sym("v"), sym("c"))
+                det = "loop updates %s, other %s" % ([show(("scal", x)) for x in inl], [show(("scal", x)) for x in outl])
+            except Unanalysable as e:
+                det = str(e)
+        ctx.check(good, "AGREE", ep.key, "Horner:value=(value+c_k)*x;+c_0",
+                  "evaluate_polynomial is not Horner's rule over coefficients[1..] reversed plus coefficients[0]: %s" % det, ep.loc)
+    cl = P.fns.get(CORE + "keys::evaluate_vss::{closure#0}")
+    if cl and cl.has_body:
+        t = TermCx(P, cl).local(0)
+        leaves = [(lambda x: x == ("field", ("arg", 1), None, "0"), ("scal", "x")), (lambda x: x == ("field", ("arg", 2), None, "0"), ("scal", "pw")),
+                  (lambda x: x == ("field", ("arg", 2), None, "1"), ("elem", "S")),
+                  (lambda x: strip_newtype_fields(x) == ("arg", 3) and x != ("arg", 3), ("elem", "phi"))]
+        good = False
+        det = fmt(t)[:200]
+        try:
+            al = Alg(leaves)
+            if t[0] == "agg" and t[1] == "tuple":
+                p2, s2 = al.val(t[4][0][1]), al.val(t[4][1][1])
+                good = p2 == ("scal", pm(sym("x"), sym("pw"))) and s2 == ("elem", {"S": algebra.P(1), "phi": sym("pw")})
+        except Unanalysable as e:
+            det = str(e)
+        ctx.check(good, "AGREE", cl.key, "(pow',sum')=(x*pow, sum+phi_k*pow)",
+                  "the commitment-evaluation step must be (x*pow, sum + phi_k*pow): %s" % det, cl.loc)
+        ev = P.fns.get(CORE + "keys::evaluate_vss")
+        if ev:
+            rt = FnView.get(P, ev).cx.local(0)
+            fo = [s for s in subterms(rt) if is_call(s, name="fold")]
+            good = len(fo) == 1 and fo[0][2][1][0] == "agg" and is_call(fo[0][2][1][4][0][1], name="one") and is_call(fo[0][2][1][4][1][1], name="identity") \
+                and rt[0] == "field" and rt[3] == "1"
+            ctx.check(good, "AGREE", ev.key, "fold-from-(1,identity)-returns-sum", "evaluate_vss must fold from (1, identity) and return the sum component", ev.loc)
